@@ -18,6 +18,9 @@ CHECKS['C05'] = dict(cat='model_checking', tech='explicit-state BFS over API his
 CHECKS['C06'] = dict(cat='model_checking', tech='explicit-state BFS over all iterator call sequences (incl. life-cycle violations) per loop shape, reference iterator life cycle, dedup on raw tables + iterator model state',
       text='For 26 loop shapes (1-3 items x 0-3 packets x ordinary/scalar x dense/sparse, with a second container whose loop numbers collide) every sequence of get_packets / next (new packet, NULL, into an existing packet) / update (9 packet shapes) / remove / close / abort / follow-up calls up to the depth bound is executed on the real library and compared with the four-state reference iterator; content is compared after every close/abort, return codes after every call.',
       note='Delivery order is unspecified: packets are matched by content. update/remove after CIF_FINISHED may answer CIF_MISUSE or act on the last packet (documentation and property disagree, both admitted).', ref='C06')
+CHECKS['C14'] = dict(cat='model_checking', tech='deviation-bounded exhaustive enumeration of handler programs (all assignments of <=k non-default answers to callback invocations) on the real cif_walk, reference walker as oracle',
+      text='For 9 CIF shapes every handler program with at most 2 (quick) / 3 (thorough) non-CONTINUE answers out of {SKIP_CURRENT, SKIP_SIBLINGS, END, CIF_CLIENT_ERROR, CIF_ERROR} placed at any callback invocation is executed with the real cif_walk in the ASan/UBSan build; each callback queries the handle it was given. The complete callback log, the return value and the transaction state afterwards are checked by a reference walker that knows the shape.',
+      note='Sibling order is unspecified (elements matched by identity). Whether an end callback is delivered after its element or a child answered SKIP_* is not pinned down by the statement and both are admitted. Shapes have no packet-less loops.', ref='C14')
 NOT_APPLICABLE = {}
 
 def main():
